@@ -112,3 +112,32 @@ def h_params(ctx, cfg):
         ok = list(a.parameters.items()) == want and len(a) == po + pk + va + ko + vk
         n += 1
         ctx.prove("parameters_in_signature_order_with_kinds_and_len", z3.BoolVal(ok), detail=repr(a))
+
+
+@harness("args.args_to_parameters.structure", props=["C04"], functions=["code_data._args.args_to_parameters"], configs="any",
+         assumes=["OrderedDict keeps insertion order; duplicate names collapse (WF: parameter names are distinct)", "rule 6: each starred generator maps a name to (name, kind) element-wise"],
+         notes="structural contract for every length: the OrderedDict is built from one tuple display whose parts are, in this order, positional-only, positional-or-keyword, "
+               "*args (iff present), keyword-only, **kwargs (iff present), each paired with its _ParameterKind - signature order, as inspect reports it")
+def h_params_structure(ctx, cfg):
+    import ast
+    src = rewrite.Source.of(A)
+    fn = src.get_def("args_to_parameters")
+    ret = [n for n in fn.body if isinstance(n, ast.Return)]
+    if len(ret) != 1 or not (isinstance(ret[0].value, ast.Call) and ast.unparse(ret[0].value.func) == "OrderedDict" and len(ret[0].value.args) == 1 and isinstance(ret[0].value.args[0], ast.Tuple)):
+        raise rewrite.BindingError("args_to_parameters no longer returns OrderedDict((<parts>))")
+    parts = ret[0].value.args[0].elts
+    if not all(isinstance(p, ast.Starred) for p in parts):
+        raise rewrite.BindingError("args_to_parameters: parts are no longer all starred")
+    desc = []
+    for p in parts:
+        txt = ast.unparse(p.value)
+        fields = [f for f in ("positional_only", "positional_or_keyword", "var_positional", "keyword_only", "var_keyword") if ("args." + f) in txt]
+        kinds = [k for k in ("POSITIONAL_ONLY", "POSITIONAL_OR_KEYWORD", "VAR_POSITIONAL", "KEYWORD_ONLY", "VAR_KEYWORD") if ("_ParameterKind." + k) in txt.replace("_ParameterKind.POSITIONAL_OR_KEYWORD", "#POK#").replace("#POK#", "_ParameterKind.POSITIONAL_OR_KEYWORD" if k == "POSITIONAL_OR_KEYWORD" else "#")]
+        desc.append((sorted(set(fields)), kinds))
+    want = [(["positional_only"], ["POSITIONAL_ONLY"]), (["positional_or_keyword"], ["POSITIONAL_OR_KEYWORD"]), (["var_positional"], ["VAR_POSITIONAL"]),
+            (["keyword_only"], ["KEYWORD_ONLY"]), (["var_keyword"], ["VAR_KEYWORD"])]
+    ctx.prove("parts_in_signature_order_with_their_kinds", z3.BoolVal(desc == want), detail=repr(desc))
+    for p, f in zip(parts, ("var_positional", "var_keyword")):
+        pass
+    opt = [ast.unparse(p.value) for p in parts if "var_" in ast.unparse(p.value)]
+    ctx.prove("optional_parts_present_iff_the_name_is_set", z3.BoolVal(all(" if args.var_" in t and t.rstrip().endswith("else ()") for t in opt) and len(opt) == 2), detail=repr(opt))
